@@ -1,7 +1,8 @@
 (* Concurrent model of ONE subscription and the consumers waiting on it.
 
    What is modelled (sources: src/subscriptions/subscription_actor.rs,
-   src/api/subscriber.rs, tokio-1.40.0 src/sync/notify.rs):
+   src/subscriptions/subscription.rs, src/api/subscriber.rs,
+   tokio-1.40.0 src/sync/notify.rs):
 
    - tokio's Notify, exactly: a permit, a FIFO list of waiters (oldest first)
      and the notify_waiters call counter; a Notified future is Init(snapshot) |
@@ -17,6 +18,38 @@
    U0: none (the previous one was dropped in state Done); U1,U2,U3: Init(snap);
    Parked n: Waiting(n); Done/Gone: dropped.  The flag "has consumed a
    notification and has not pulled yet" ([owes]) lives in the phases U0 and U1.
+
+   Two versions of the code are described, selected by the boolean [ho]
+   ("handoff") that every step function takes next to the capacity K:
+
+   - ho = false: the code before the commit
+       "fix: pass the wake-up on when a woken consumer goes away before its
+        pull is queued".
+     A consumer whose future is dropped while it waits for room in the mailbox
+     (phase U1) just disappears.
+   - ho = true: the code after that commit.  Subscription::pull_messages holds
+     a drop guard (WakeNextOnDrop) across `self.sender.send(..).await`; when the
+     future goes away at that await the guard calls notify_one, whether or not
+     the caller had consumed a notification (the guard does not know); once the
+     request is in the mailbox the guard is disarmed.  In the model: whenever a
+     consumer whose OLD phase is U1 is finished by LCancel / LTimeout /
+     LDelExit, notify_one is performed on the resulting state ([leave]).
+     The error path of the same await (the actor has exited, `send` returns
+     Err and `?` returns through the armed guard) notifies as well in the Rust
+     code, and the model does the same (the U1 branch of [cons_step] uses
+     [leave] too).  The subscription is deleted at that point, so this surplus
+     notification is irrelevant for C06; it is kept for faithfulness.
+
+   Drop points.  A Rust future can only be dropped at an await at which it
+   returned Pending.  Phase U0 with owes = true is not such a point: the poll of
+   the signal has just returned Ready and the code runs synchronously on to
+   `notified()` and into the send.  LCancel / LTimeout / LDelExit are therefore
+   disabled at `PU0 true` ([suspended]), for both values of ho; they stay
+   enabled at `PU0 false` (a consumer that arrived and was never polled).
+   Phase U3 (empty reply seen, about to poll the signal) is synchronous as
+   well, but drops are left ENABLED there: nothing is owed at U3, a drop at U3
+   is indistinguishable from a drop one step earlier (at U2 with the reply
+   delivered) or one step later (parked), and no theorem needs the exclusion.
 
    This file contains definitions only; everything is executable. *)
 From Coq Require Import List NArith Arith Bool Lia.
@@ -152,21 +185,38 @@ Definition finish (old : phase) (c : nat) (f : cons -> cons) (s : state) : state
   | _ => s1
   end.
 
+(* The pull future of consumer c goes away at the await point given by its OLD
+   phase: its Notified is dropped ([finish]) and, in the repaired code
+   (ho = true), the armed WakeNextOnDrop guard of a consumer that was waiting
+   for room in the mailbox (U1) calls notify_one -- unconditionally, also when
+   the consumer had not consumed any notification. *)
+Definition leave (ho : bool) (old : phase) (c : nat) (f : cons -> cons) (s : state) : state :=
+  let s1 := finish old c f s in
+  match old with
+  | PU1 _ _ => if ho then notify_one s1 else s1
+  | _ => s1
+  end.
+
+(* The await points at which the future of a live consumer can be dropped:
+   everything except U0 right after a Ready poll (synchronous code). *)
+Definition suspended (p : phase) : bool :=
+  match p with PDone _ | PGone | PU0 true => false | _ => true end.
+
 (* ------------------------------------------------------------------ *)
 (* Consumer micro-steps (the messages branch)                          *)
 
 Definition closed_outcome (k : kind) : outcome :=
   match k with Unary => OError | Stream => ONotFound end.
 
-Definition cons_step (K : nat) (s : state) (c : nat) : option state :=
+Definition cons_step (ho : bool) (K : nat) (s : state) (c : nat) : option state :=
   match get s c with
   | None => None
   | Some cs =>
     match cphase cs with
     | PU0 o => Some (setc c (with_phase (PU1 (calls s) o)) s)
     | PU1 snap o =>
-        if exited s then
-          Some (finish (cphase cs) c (with_phase (PDone (closed_outcome (ckind cs)))) s)
+        if exited s then   (* send returns Err; `?` returns through the armed guard *)
+          Some (leave ho (cphase cs) c (with_phase (PDone (closed_outcome (ckind cs)))) s)
         else if Nat.ltb (length (mailbox s)) K then
           Some (set_mailbox (mailbox s ++ [RPull c (cmax cs)])
                   (setc c (with_phase (PU2 snap None)) s))
@@ -195,15 +245,16 @@ Definition cons_step (K : nat) (s : state) (c : nat) : option state :=
   end.
 
 (* The select! of a consumer picks the `deleted` branch. *)
-Definition del_exit (s : state) (c : nat) : option state :=
+Definition del_exit (ho : bool) (s : state) (c : nat) : option state :=
   if negb (deleted s) then None else
   match get s c with
   | None => None
   | Some cs =>
     match ckind cs, cphase cs with
     | _, PDone _ | _, PGone => None
-    | Unary, p => Some (finish p c (with_phase (PDone ONotFound)) s)
-    | Stream, (PU3 _ | PParked _) as p => Some (finish p c (with_phase (PDone ONotFound)) s)
+    | Unary, PU0 true => None          (* not a suspension point *)
+    | Unary, p => Some (leave ho p c (with_phase (PDone ONotFound)) s)
+    | Stream, (PU3 _ | PParked _) as p => Some (leave ho p c (with_phase (PDone ONotFound)) s)
     | Stream, _ => None
     end
   end.
@@ -211,24 +262,24 @@ Definition del_exit (s : state) (c : nat) : option state :=
 Definition alive (p : phase) : bool :=
   match p with PDone _ | PGone => false | _ => true end.
 
-Definition timeout (s : state) (c : nat) : option state :=
+Definition timeout (ho : bool) (s : state) (c : nat) : option state :=
   match get s c with
   | None => None
   | Some cs =>
     match ckind cs with
     | Stream => None
     | Unary =>
-        if alive (cphase cs)
-        then Some (finish (cphase cs) c (fun x => with_timed (with_phase (PDone OEmpty) x)) s)
+        if suspended (cphase cs)
+        then Some (leave ho (cphase cs) c (fun x => with_timed (with_phase (PDone OEmpty) x)) s)
         else None
     end
   end.
 
-Definition cancel (s : state) (c : nat) : option state :=
+Definition cancel (ho : bool) (s : state) (c : nat) : option state :=
   match get s c with
   | None => None
   | Some cs =>
-    if alive (cphase cs) then Some (finish (cphase cs) c (with_phase PGone) s) else None
+    if suspended (cphase cs) then Some (leave ho (cphase cs) c (with_phase PGone) s) else None
   end.
 
 (* ------------------------------------------------------------------ *)
@@ -304,12 +355,12 @@ Definition is_pull (r : req) : bool := match r with RPull _ _ => true | _ => fal
 
 Definition new_cons (k : kind) (m : nat) : cons := mkCons k m (PU0 false) false 0.
 
-Definition step (K : nat) (s : state) (l : label) : option state :=
+Definition step (ho : bool) (K : nat) (s : state) (l : label) : option state :=
   match l with
   | LTurn => turn s
   | LExit => actor_exit s
-  | LCons c => cons_step K s c
-  | LDelExit c => del_exit s c
+  | LCons c => cons_step ho K s c
+  | LDelExit c => del_exit ho s c
   | LEnq r =>
       if is_pull r || exited s || negb (Nat.ltb (length (mailbox s)) K) then None
       else Some (set_mailbox (mailbox s ++ [r]) s)
@@ -317,20 +368,22 @@ Definition step (K : nat) (s : state) (l : label) : option state :=
       if exited s then None
       else Some (if deleted s then s else requeue j s)
   | LArrive k m => Some (set_conss (conss s ++ [new_cons k m]) s)
-  | LCancel c => cancel s c
-  | LTimeout c => timeout s c
+  | LCancel c => cancel ho s c
+  | LTimeout c => timeout ho s c
   end.
 
-Fixpoint run (K : nat) (s : state) (ls : list label) : option state :=
+Fixpoint run (ho : bool) (K : nat) (s : state) (ls : list label) : option state :=
   match ls with
   | [] => Some s
-  | l :: t => match step K s l with Some s' => run K s' t | None => None end
+  | l :: t => match step ho K s l with Some s' => run ho K s' t | None => None end
   end.
 
-(* The steps that lose a consumed notification: consumer c has consumed a
-   notification (its poll returned Ready), has not yet enqueued the Pull it
-   owes (it is at U0, or at U1 waiting for room in the mailbox), the backlog is
-   non-empty and c is dropped (cancelled / timed out). *)
+(* The steps that lose a consumed notification in the OLD code (ho = false):
+   consumer c has consumed a notification (its poll returned Ready), has not
+   yet enqueued the Pull it owes, the backlog is non-empty and c is dropped
+   (cancelled / timed out / deleted branch).  Since drops are disabled at
+   `PU0 true`, the only enabled such drops are those at U1 (waiting for room
+   in the mailbox). *)
 Definition owing_at (s : state) (c : nat) : bool :=
   match get s c with Some cs => owes cs | None => false end.
 
@@ -341,24 +394,24 @@ Definition bad_drop (s : state) (l : label) : bool :=
   | _ => false
   end.
 
-Inductive reachable (K : nat) : state -> Prop :=
-| reach_init : reachable K init
-| reach_step s l s' : reachable K s -> step K s l = Some s' -> reachable K s'.
+Inductive reachable (ho : bool) (K : nat) : state -> Prop :=
+| reach_init : reachable ho K init
+| reach_step s l s' : reachable ho K s -> step ho K s l = Some s' -> reachable ho K s'.
 
-(* The system without the losing drops. *)
-Inductive reachableR (K : nat) : state -> Prop :=
-| reachR_init : reachableR K init
+(* The system without the losing drops (only of interest for ho = false). *)
+Inductive reachableR (ho : bool) (K : nat) : state -> Prop :=
+| reachR_init : reachableR ho K init
 | reachR_step s l s' :
-    reachableR K s -> bad_drop s l = false -> step K s l = Some s' -> reachableR K s'.
+    reachableR ho K s -> bad_drop s l = false -> step ho K s l = Some s' -> reachableR ho K s'.
 
-Definition quiescent (K : nat) (s : state) : Prop :=
-  forall l, internal l = true -> step K s l = None.
+Definition quiescent (ho : bool) (K : nat) (s : state) : Prop :=
+  forall l, internal l = true -> step ho K s l = None.
 
 (* Executable version for the examples (consumer ids below n). *)
-Definition quiescentb (K : nat) (s : state) : bool :=
+Definition quiescentb (ho : bool) (K : nat) (s : state) : bool :=
   match turn s, actor_exit s with
   | None, None =>
-      forallb (fun c => match cons_step K s c, del_exit s c with None, None => true | _, _ => false end)
+      forallb (fun c => match cons_step ho K s c, del_exit ho s c with None, None => true | _, _ => false end)
               (seq 0 (length (conss s)))
   | _, _ => false
   end.
